@@ -33,6 +33,9 @@ def run(ctx) -> None:
     ctx.rule("C03.R6-chain-safe-order", "references are rewritten one key after the other on the same string and the inserted text "
              "(<producer><index>) can be the spelling of another replicated producer (Run -> Run1): the loop over the keys must "
              "run longest-first, so that inserted text is never rewritten again")
+    ctx.rule("C03.R7-fresh-variable-scope", "the variables that resolve a component's replicate/aggregate are layered on a scope created "
+             "for that component: override_object merges IN PLACE into its first argument, so that argument must be a fresh copy "
+             "made in the same loop iteration (never a cached or shared scope that would accumulate other components' variables)")
     ctx.rule("C03.R2-naming-agreement", "replica component names and replica references use the same format and index; "
                                         "indices run over range(count); variables['replica'] is the index")
     ctx.rule("C03.R3-apply-replicate", "a reference is treated as replicated only if its producer has a positive propagated count "
@@ -82,6 +85,72 @@ def run(ctx) -> None:
                        construct="for ... in %s: chained rewriting order" % short(loop.iter, 60))
     ctx.floor("C03.R1-anchored-rewrite", n_sites, 2, "reference rewriting sites in replica/aggregate compilation")
     ctx.floor("C03.R6-chain-safe-order", n_chain, 2, "loops that rewrite a string key after key")
+
+    # ---------------- R7 -------------------------------------------------------------------------------
+    from vlib import flow
+
+    def innermost_loop(node: ast.AST, fn: ast.AST):
+        for a in source.ancestors(node):
+            if isinstance(a, (ast.For, ast.While)):
+                return a
+            if a is fn:
+                return None
+        return None
+
+    def fresh_copy(e: ast.AST) -> bool:
+        if isinstance(e, (ast.Dict, ast.DictComp)):
+            return True
+        if isinstance(e, ast.Call):
+            nm = (call_name(e) or last_attr(e) or "").split(".")[-1]
+            return nm in ("deep_copy", "deepcopy", "dict")
+        return False
+    n7 = 0
+    for fn in (app, prop):
+        c7 = CFG(fn)
+        for call in [c for c in source.calls_in(fn) if last_attr(c) == "override_object" and len(c.args) == 2]:
+            n7 += 1
+            loop = innermost_loop(call, fn)
+            cur_call, why, ok = call, "", None
+            for _ in range(6):
+                a = cur_call.args[0]
+                if fresh_copy(a):
+                    ok = True
+                    break
+                if not isinstance(a, ast.Name):
+                    ok, why = False, "its first argument is %s, an object that outlives this iteration" % short(a, 50)
+                    break
+                st = source.stmt_of(cur_call)
+                nodes = [n for n in c7.nodes if n.ast is st]
+                rd = flow.reaching_defs(c7, a.id, ignore_labels=("exc",)).get(nodes[0].id, frozenset()) if nodes else frozenset()
+                if len(rd) != 1 or -1 in rd:
+                    ok, why = False, "'%s' has %d reaching definitions here (or is a parameter)" % (a.id, len(rd))
+                    break
+                dn = c7.nodes[next(iter(rd))]
+                v = flow.def_value(c7, dn.id, a.id)
+                if v is None:
+                    ok, why = False, "'%s' is not defined by a plain assignment" % a.id
+                    break
+                if innermost_loop(dn.ast, fn) is not loop:
+                    ok, why = False, "'%s' is created outside the loop iteration that merges into it (%s)" % (a.id, short(dn.ast, 60))
+                    break
+                if fresh_copy(v):
+                    ok = True
+                    break
+                if isinstance(v, ast.Call) and last_attr(v) == "override_object" and len(v.args) == 2:
+                    cur_call = v
+                    continue
+                ok, why = False, "'%s' is %s, not a fresh copy" % (a.id, short(v, 50))
+                break
+            if ok is None:
+                ok, why = False, "the chain of merges is too long to follow"
+            ctx.ob("C03.R7-fresh-variable-scope", call, ok,
+                   "%s: the scope merged into is a fresh copy of this iteration" % source.qualname(fn).split(".")[-1] if ok else
+                   "%s: override_object merges in place and %s: variables of one component leak into the scope of the components "
+                   "processed later, e.g. a private 'numberPoints: 4' of an earlier component replaces the global value 2 that a "
+                   "later component's 'replicate: %%(numberPoints)s' should resolve to - it is expanded 4 times"
+                   % (source.qualname(fn).split(".")[-1], why),
+                   construct="%s in %s" % (short(call, 70), source.qualname(fn).split(".")[-1]))
+    ctx.floor("C03.R7-fresh-variable-scope", n7, 4, "override_object merges in apply_replicate / propagate_replicate")
 
     # ---------------- R5 -------------------------------------------------------------------------------
     # the relative spelling '<producer>:<method>' denotes a producer in the consumer's OWN stage; it may be registered
